@@ -5,28 +5,16 @@
    time.Parse, strconv) enter as an abstract parse result; zone behaviour (the offset in force
    at an instant, the offset time.Date picks for a wall reading) enters as Section variables
    whose values the harness obtains from Go's time package.  Executable definitions only. *)
-From Coq Require Import ZArith List Bool.
+From Coq Require Import ZArith List Bool String.
 Import ListNotations.
-From OV Require Import Base.Cases.
+From OV Require Import Base.Cases Model.Int64 Gen.DateTime.
 Local Open Scope Z_scope.
 
-(* ---- int64 ---------------------------------------------------------------------------------- *)
-Definition wrap64 (x : Z) : Z := (x + 2^63) mod 2^64 - 2^63.
-Definition add64 (a b : Z) : Z := wrap64 (a + b).
-Definition sub64 (a b : Z) : Z := wrap64 (a - b).
-Definition mul64 (a b : Z) : Z := wrap64 (a * b).
-(* b is a non-zero constant at every use below; MinInt64 / -1 does not occur (b > 0). *)
-Definition quot64 (a b : Z) : Z := wrap64 (Z.quot a b).
-Definition rem64 (a b : Z) : Z := Z.rem a b.
-Definition is_int64 (x : Z) : Prop := - 2^63 <= x < 2^63.
-
-(* ---- instants --------------------------------------------------------------------------------- *)
-(* A time.Time as its Unix seconds and nanoseconds within the second. *)
-Record instant := mkI { sec : Z; nsec : Z }.
+(* int64 arithmetic (wrap64 ...), instants and time.Unix are in Model/Int64.v; the epoch
+   expressions, the unit strings and the two zone steps of parseDateTime are in Gen/DateTime.v,
+   regenerated from customfuncs/datetime.go on every run. *)
 Definition MIN_SEC : Z := -62135596800.   (* 0001-01-01T00:00:00Z *)
 Definition MAX_SEC : Z := 253402300799.   (* 9999-12-31T23:59:59Z *)
-Definition NS : Z := 1000000000.
-Definition MS_NS : Z := 1000000.          (* int64(time.Millisecond) *)
 
 Definition instant_eqb (a b : instant) : bool := (sec a =? sec b) && (nsec a =? nsec b).
 
@@ -41,30 +29,9 @@ Definition days_from_civil (y m d : Z) : Z :=
   era * 146097 + doe - 719468.
 
 (* ---- epoch conversions (datetime.go, DateTimeToEpoch / EpochToDateTimeRFC3339 switches) ------ *)
-Inductive eunit := USecond | UMillisecond.
-
-(* t.Unix()*1000 + int64(t.Nanosecond())/int64(time.Millisecond)   |   t.Unix() *)
-Definition to_epoch (u : eunit) (t : instant) : Z :=
-  match u with
-  | UMillisecond => add64 (mul64 (sec t) 1000) (quot64 (nsec t) MS_NS)
-  | USecond => sec t
-  end.
-
-(* time.Unix(sec, nsec): nsec outside [0, 1e9) is carried into sec *)
-Definition time_unix (s ns : Z) : instant :=
-  if (ns <? 0) || (ns >=? NS) then
-    let n := quot64 ns NS in
-    let s1 := add64 s n in
-    let ns1 := sub64 ns (mul64 n NS) in
-    if ns1 <? 0 then mkI (sub64 s1 1) (add64 ns1 NS) else mkI s1 ns1
-  else mkI s ns.
-
-(* time.Unix(n, 0)   |   time.Unix(n/1000, (n%1000)*int64(time.Millisecond)) *)
-Definition from_epoch (u : eunit) (n : Z) : instant :=
-  match u with
-  | USecond => time_unix n 0
-  | UMillisecond => time_unix (quot64 n 1000) (mul64 (rem64 n 1000) MS_NS)
-  end.
+(* DateTimeToEpoch / EpochToDateTimeRFC3339: the expressions of the source, per unit *)
+Definition to_epoch (u : eunit) (t : instant) : Z := to_epoch_expr u t.
+Definition from_epoch (u : eunit) (n : Z) : instant := from_epoch_expr u n.
 
 (* what the property expects back: the instant truncated (toward the past) to the unit *)
 Definition trunc_unit (u : eunit) (t : instant) : instant :=
@@ -74,7 +41,6 @@ Definition trunc_unit (u : eunit) (t : instant) : instant :=
   end.
 
 (* the code before the fix of F6b: t.UnixNano()/1e6 and time.Unix(0, n*1e6) *)
-Definition unix_nano (t : instant) : Z := add64 (mul64 (sec t) NS) (nsec t).
 Definition old_to_epoch_ms (t : instant) : Z := quot64 (unix_nano t) MS_NS.
 Definition old_from_epoch_ms (n : Z) : instant := time_unix 0 (mul64 n MS_NS).
 
@@ -125,23 +91,63 @@ Section Zones.
     | TzZone z => Some (mkG (g_sec t) (g_nsec t) (LZone z))
     end.
 
-  (* parseDateTime after the parse: datetime.go:47-66 *)
+  Definition apply_op (op : tzop) (t : gotime) (tz : tzarg) : option gotime :=
+    match op with OpOverwrite => overwrite_tz t tz | OpConvert => convert_tz t tz end.
+
+  (* parseDateTime after the parse (datetime.go:47-66), over the two steps Gen/DateTime.v reads
+     from the source: [if guard { t = op(t, fromTZ); hasTZ = true }] then
+     [if guard { t = (if hasTZ then op1 else op2)(t, toTZ); hasTZ = .. }] *)
   Definition parse_date_time (p : parse_result) (fromTZ toTZ : tzarg) : option (gotime * bool) :=
     match p with
     | PErr => None
     | POk t hasTZ =>
         let r1 :=
-          if negb hasTZ && negb (tz_is_empty fromTZ) then
-            match overwrite_tz t fromTZ with None => None | Some t' => Some (t', true) end
+          if from_step_guard hasTZ (tz_is_empty fromTZ) then
+            match apply_op from_step_op t fromTZ with
+            | None => None
+            | Some t' => Some (t', if from_step_sets_has_tz then true else hasTZ)
+            end
           else Some (t, hasTZ) in
         match r1 with
         | None => None
         | Some (t1, h1) =>
-            if negb (tz_is_empty toTZ) then
-              if h1 then match convert_tz t1 toTZ with None => None | Some t2 => Some (t2, true) end
-              else match overwrite_tz t1 toTZ with None => None | Some t2 => Some (t2, true) end
+            if to_step_guard h1 (tz_is_empty toTZ) then
+              match apply_op (to_step_op h1) t1 toTZ with
+              | None => None
+              | Some t2 => Some (t2, if to_step_sets_has_tz h1 then true else h1)
+              end
             else Some (t1, h1)
         end
+    end.
+
+  (* ---- the same as a decision table (what the function's comment promises) ---- *)
+  Inductive decision :=
+  | DError                                   (* a zone name that does not load *)
+  | DBare                                    (* no zone anywhere: the wall reading as it is *)
+  | DKeep (shown_in : option zone)           (* the parsed instant; shown in toTZ, else as parsed *)
+  | DBind (z : zone) (shown_in : zone).      (* the wall reading bound to z by time.Date, shown in shown_in *)
+  Definition decide (hasTZ : bool) (fromTZ toTZ : tzarg) : decision :=
+    if hasTZ then
+      match toTZ with TzBad => DError | TzZone z => DKeep (Some z) | _ => DKeep None end
+    else
+      match fromTZ, toTZ with
+      | TzBad, _ => DError
+      | _, TzBad => DError
+      | TzZone zf, TzZone zt => DBind zf zt
+      | TzZone zf, _ => DBind zf zf
+      | TzBlank, TzZone zt => DKeep (Some zt)      (* a blank fromTZ binds nothing but marks the value as zoned *)
+      | TzBlank, _ => DKeep None
+      | TzEmpty, TzZone zt => DBind zt zt
+      | TzEmpty, TzBlank => DKeep None
+      | TzEmpty, TzEmpty => DBare
+      end.
+  Definition interp (t : gotime) (d : decision) : option (gotime * bool) :=
+    match d with
+    | DError => None
+    | DBare => Some (t, false)
+    | DKeep None => Some (t, true)
+    | DKeep (Some z) => Some (mkG (g_sec t) (g_nsec t) (LZone z), true)
+    | DBind z zs => let w := wall_sec t in Some (mkG (w - off_of_wall z w) (g_nsec t) (LZone zs), true)
     end.
 
   (* rfc3339(): time.RFC3339 prints the offset as +-hh:mm (offset/60, truncated toward zero,
@@ -284,10 +290,10 @@ Inductive c19case :=
 | LayoutCase (inst wall : ztable) (dt : option parse_result) (layout_empty : bool) (layoutTZ : ltz)
              (fromTZ toTZ : tzarg) (observed : res rfc_obs)
   (* DateTimeToEpoch *)
-| ToEpochCase (inst wall : ztable) (dt : option parse_result) (fromTZ : tzarg) (u : option eunit)
+| ToEpochCase (inst wall : ztable) (dt : option parse_result) (fromTZ : tzarg) (unit : string)
               (observed : res Z)
   (* EpochToDateTimeRFC3339 *)
-| FromEpochCase (inst : ztable) (epoch : option (option Z)) (u : option eunit) (tz : list (option zone))
+| FromEpochCase (inst : ztable) (epoch : option (option Z)) (unit : string) (tz : list (option zone))
                 (observed : res rfc_obs)
   (* per record: the members (ignore_error, kind of result of the function called on its own)
      and what the Transform delivered: None = failed record, Some flags = member present? *)
@@ -300,9 +306,9 @@ Definition check_case (c : c19case) : bool :=
   | LayoutCase zi zw dt le ltz f t obs =>
       res_eqb rfc_obs_eqb (date_time_layout_to_rfc3339 (zlookup zi) (zlookup zw) dt le ltz f t) obs
   | ToEpochCase zi zw dt f u obs =>
-      res_eqb Z.eqb (date_time_to_epoch (zlookup zi) (zlookup zw) dt f u) obs
+      res_eqb Z.eqb (date_time_to_epoch (zlookup zi) (zlookup zw) dt f (unit_of_string u)) obs
   | FromEpochCase zi e u tz obs =>
-      res_eqb rfc_obs_eqb (epoch_to_date_time (zlookup zi) e u tz) obs
+      res_eqb rfc_obs_eqb (epoch_to_date_time (zlookup zi) e (unit_of_string u) tz) obs
   | SchemaCase recs =>
       forallb (fun p => opt_eqb (list_eqb Bool.eqb) (record_outcome (fst p)) (snd p)) recs
   end.
